@@ -139,8 +139,47 @@ func (st *State) eqValues(a, b Value) *Term {
 		if x.Kind != y.Kind {
 			return FalseT
 		}
+		if x.Kind == rkInvalid {
+			return TrueT
+		}
 		if x.Ref != nil && y.Ref != nil {
 			return st.eqValues(x.Ref, y.Ref)
+		}
+		if x.Kind == rkPtr && x.Ref == nil && y.Ref == nil {
+			// pointer-shaped: the data word is the pointer itself
+			if x.Typ != nil && y.Typ != nil && x.Typ.GoType != nil && y.Typ.GoType != nil && !types.Identical(x.Typ.GoType, y.Typ.GoType) {
+				return FalseT
+			}
+			px, okx := x.Val.(*PtrV)
+			py, oky := y.Val.(*PtrV)
+			if okx && oky {
+				return st.eqValues(px, py)
+			}
+			if st.E.Trace {
+				fmt.Printf("    rvaleq ptr payloads %T %T\n", x.Val, y.Val)
+			}
+		}
+		if x.Kind == rkFunc && x.Ref == nil && y.Ref == nil {
+			// pointer-shaped too: the code pointer of a top-level function, the closure object otherwise
+			fx, okx := x.Val.(*FuncV)
+			fy, oky := y.Val.(*FuncV)
+			if okx && oky {
+				if fx.IsNil() || fy.IsNil() {
+					return BoolT(fx.IsNil() && fy.IsNil())
+				}
+				if fx.Fn != fy.Fn || fx.Native != fy.Native {
+					return FalseT
+				}
+				if len(fx.Env) == 0 && len(fy.Env) == 0 && fx.Recv == nil && fy.Recv == nil {
+					return TrueT
+				}
+				if fx.ID != 0 && fy.ID != 0 {
+					return BoolT(fx.ID == fy.ID)
+				}
+			}
+		}
+		if st.E.Trace {
+			fmt.Printf("    rvaleq kind=%s ref=%v/%v payloads %T %T\n", rkNames[x.Kind], x.Ref != nil, y.Ref != nil, x.Val, y.Val)
 		}
 		return st.FreshTerm("rvaleq", SBool, 0)
 	case *OpaqueV:
